@@ -288,7 +288,13 @@ def render(spec):
         i = h["i"]
         if h["fallible"]:
             emit_err("h", i)
-        w("#[pavex::route(method = \"%s\", path = \"%s\", id = \"%s_H%d\")]" % (h["method"], h["path"], U, i))
+        if h.get("any"):
+            # matches every HTTP method (well-known or not)
+            w("#[pavex::route(path = \"%s\", id = \"%s_H%d\", allow(any_method))]" % (h["path"], U, i))
+        elif h.get("methods"):
+            w("#[pavex::route(method = [%s], path = \"%s\", id = \"%s_H%d\")]" % (", ".join("\"%s\"" % x for x in h["methods"]), h["path"], U, i))
+        else:
+            w("#[pavex::route(method = \"%s\", path = \"%s\", id = \"%s_H%d\")]" % (h["method"], h["path"], U, i))
         params = ", ".join(_param(spec, k, j, m) for k, (j, m) in enumerate(h["ins"]))
         body = "log(format!(\"handler %s.h%d : %s\"%s));" % (M, i, _fmt_ids(h["ins"]), (", " + _ids(h["ins"])) if h["ins"] else "")
         if h["fallible"]:
